@@ -32,6 +32,15 @@ func main() {
 				fmt.Println("ERR", err)
 			}
 		}
+	case "events":
+		p, err := loadProgram(LoadOpts{})
+		if err != nil {
+			fmt.Println("ERR", err)
+			os.Exit(1)
+		}
+		if err := discoverEvents(p, os.Args[2], os.Args[3:]); err != nil {
+			fmt.Println("ERR", err)
+		}
 	case "check":
 		os.Exit(runCheck(os.Args[2:]))
 	case "probe":
